@@ -116,3 +116,44 @@ theorem failTS_ended (f : Bool) : (failTS f).ended = true := by cases f <;> rfl
 theorem Pend.ts_ended (p : Pend) : p.ts.ended = true := by cases p <;> rfl
 
 end Kopf.C20
+
+namespace Kopf.C20
+
+theorem run_append (cfg : Cfg) : ∀ (ls ms : List Label) (s : State),
+    run cfg s (ls ++ ms) = (run cfg s ls).bind (fun s1 => run cfg s1 ms)
+  | [], ms, s => by simp [run]
+  | l :: ls, ms, s => by
+    simp only [List.cons_append, run]
+    cases step cfg s l with
+    | none => simp
+    | some s1 => simpa using run_append cfg ls ms s1
+
+theorem Reach.init (cfg : Cfg) : Reach cfg init := ⟨[], rfl⟩
+
+theorem Reach.step {cfg : Cfg} {s s' : State} {l : Label} (h : Reach cfg s) (hs : step cfg s l = some s') :
+    Reach cfg s' := by
+  obtain ⟨ls, hls⟩ := h
+  refine ⟨ls ++ [l], ?_⟩
+  rw [run_append, hls]
+  simp [run, hs]
+
+/-- Induction over reachable states, with reachability of the pre-state available in the step case. -/
+theorem Reach.induction {cfg : Cfg} {P : State → Prop} (h0 : P Kopf.C20.init)
+    (hstep : ∀ s s' l, Reach cfg s → P s → Kopf.C20.step cfg s l = some s' → P s') :
+    ∀ s, Reach cfg s → P s := by
+  have key : ∀ (ls : List Label) (s0 s : State), Reach cfg s0 → P s0 → run cfg s0 ls = some s → P s := by
+    intro ls
+    induction ls with
+    | nil => intro s0 s _ hp h; simp [run] at h; subst h; exact hp
+    | cons l ls ih =>
+      intro s0 s hr hp h
+      simp only [run] at h
+      cases h1 : Kopf.C20.step cfg s0 l with
+      | none => simp [h1] at h
+      | some s1 =>
+        simp only [h1] at h
+        exact ih s1 s (hr.step h1) (hstep s0 s1 l hr hp h1) h
+  intro s ⟨ls, hls⟩
+  exact key ls _ s (Reach.init cfg) h0 hls
+
+end Kopf.C20
